@@ -10,6 +10,7 @@ import m_endian
 import m_streams
 import m_regions
 import m_conc
+import m_copyw
 
 
 def c09(ctx):
@@ -37,6 +38,7 @@ PROPS = {
     "C17": m_volatile.run,
     "C18": both,
     "C07": c07,
+    "C06": m_copyw.run,
     "C08": m_conc.run,
     "C09": c09,
     "C10": m_regions.run,
